@@ -155,10 +155,19 @@ def is_safe_text(tok):
     return any(ch in LETTERS and ch not in "eE" for ch in tok)
 
 
+# non-ASCII text tokens (Latin-1 letters, Greek, micro sign, Angstrom, CJK, an emoji); none of them is whitespace.
+# Only generated when the interpreter's default text encoding is UTF-8 (the library opens files with the default encoding).
+NONASCII = ["se\u00f1al", "\u03a9x", "\u00b5m", "\u00c52", "na\u00efve", "gr\u00fc\u00dfe", "\u03bbmax", "\u4e2da", "x\U0001f600", "caf\u00e9",
+            "\u00e0b", "r\u00e9sum\u00e9_1", "\u0394z", "t\u00f6mo/\u00e5.mrc", "\u65e5\u672cx"]
+USE_NONASCII = su.default_encoding_is_utf8()
+
+
 def gen_text_token(rng):
     while True:
         k = rng.random()
-        if k < 0.1:
+        if k < 0.08 and USE_NONASCII:
+            return rng.choice(NONASCII) if rng.random() < 0.7 else rng.choice(NONASCII) + rng.choice(["_a", "k", ".x", "-b"])
+        if k < 0.18:
             tok = rng.choice(["data_x", "data_", "TS_01/12.mrc", "a", "12ab", "1e5x", "x1e5", "A", "B", "-x", "+y", "1.2.3v",
                               'ab"c', '"ab"', "'q'", "a,b", "a;b", "a\\b", "a|b", "$x", "x=1", "k:v", '""x', "x'", "`t`", "a,\"b"])
         elif k < 0.55:
@@ -443,6 +452,11 @@ def run(ctx):
         "the split of the file at LF bytes and the interpretation of Rnd6 inputs (decimal of the float's shortest spelling) are "
         "done by the driver; tokenizing, parsing, typing, rounding and every comparison of the L3 traces are done by TLC",
     ]
+    if USE_NONASCII:
+        ctx.assumptions.append("non-ASCII text tokens are generated as UTF-8 (the interpreter's default text encoding is UTF-8; the "
+                               "library opens STAR files with the default encoding on both sides)")
+    else:
+        ctx.discard("non-ASCII text tokens not generated: the default text encoding is not UTF-8")
     only = getattr(ctx, "only", None)
 
     def want(x):
